@@ -203,7 +203,7 @@ class Runner(object):
                 try:
                     return [1, fn().id]
                 except Exception as exc:
-                    return [2, classify(exc, self.readonly)]
+                    return [2, classify(exc, False)]
             for z in range(-n - 1, n + 1):
                 toks += res(lambda: cont[z])
             for x in items:
